@@ -29,6 +29,94 @@ def vals_equal(a, b, log):
     return a == b if not log else close_ulp(a, b, 8)
 
 
+ROUTES = ["inject", "inject", "underlier", "sibling", "derivative", "cast"]
+
+
+def second_round(torch, g, f, d, u, mk, name):
+    """the SAME feature object / derivative, already evaluated step by step on the market `mk`, is evaluated again after
+    the prices of the underlier were replaced by a route chosen at random: buffers re-registered with another market
+    (possibly another number of paths), the underlier simulated directly, a sibling derivative on the same underlier
+    simulated, the derivative itself simulated, or the derivative cast to another dtype.  Whatever the feature / the
+    derivative remembered from the first round must not show: single steps == columns of the batched value."""
+    import pfhedge.instruments as I
+    T = mk["T"]
+    route = g.choice([r for r in ROUTES if not (name == "module_output" and r == "cast")])   # (the float64 module is not cast)
+    info = {"route": route}
+    if route == "inject":
+        mk2 = gen_market(g, T=T, primary=mk["primary"])
+        inject(torch, u, mk2)
+        info |= {"spot": enc_rat(mk2["spot"]), "var": enc_rat(mk2["var"]), "vol": enc_rat(mk2["vol"])}
+    elif route == "cast":
+        d.to(torch.float32)
+    else:
+        n2, seed = g.choice([1, 2, 3]), g.randint(0, 10 ** 6)
+        info |= {"n_paths": n2, "torch_seed": seed}
+        torch.manual_seed(seed)
+        if route == "underlier":
+            st, v, _ = call_impl(u.simulate, n_paths=n2, time_horizon=d.maturity)
+        elif route == "sibling":
+            sib = getattr(I, g.choice(OPTION_TYPES))(u, maturity=d.maturity)
+            st, v, _ = call_impl(sib.simulate, n_paths=n2)
+        else:
+            st, v, _ = call_impl(d.simulate, n_paths=n2)
+        if st != "ok":
+            raise InternalError(f"second round: simulation by route {route} raised: {v}")
+    N2, T2 = u.spot.shape
+    steps = sorted({0, T2 - 1, g.randint(0, T2 - 1), g.randint(0, T2 - 1)})
+    batched_first = g.chance(0.5)
+    info |= {"steps": steps, "batched_first": batched_first, "N": N2, "T": T2}
+    if batched_first:
+        r_all = call_impl(f.get, None)[:2]
+    ats = [call_impl(f.get, i)[:2] for i in steps]
+    if not batched_first:
+        r_all = call_impl(f.get, None)[:2]
+    return info, r_all, ats, (N2, T2), u.spot.dtype
+
+
+def judge_second_round(ctx, torch, second, case, name, log):
+    info, (st_all, v_all), ats, (N, T), dtype = second
+    case = case | {"second_round": info}
+    ctx.case(case, nontrivial=T >= 2, tag="feature_second_round")
+    ctx.stats[f"route={info['route']}"] += 1
+    key = f"feature:{name}:step-vs-all:after-market-change"
+    if st_all != "ok":
+        ctx.fail(f"feature {name}.get(None) raised after the market was replaced ({info['route']})", case, key=key + ":error", detail=v_all)
+        return
+    width = v_all.shape[-1]
+    if tuple(v_all.shape) != (N, T, width):
+        ctx.fail(f"feature {name}.get(None) has shape {tuple(v_all.shape)} on a market of shape {(N, T)}", case, key=key + ":shape")
+        return
+    allv = v_all.to(torch.float64).tolist()
+    ulp = 2.0 ** -52 if dtype == torch.float64 else 2.0 ** -23
+    # tolerance: as in the first round (bitwise; 8 ulp of the dtype for logs and the time to maturity); a module applied to
+    # simulated (non-dyadic) prices may accumulate its dot products in another order for one column than for all: 1e-12 relative
+    ulps = 8 if (log or name == "time_to_maturity") else 0
+    rel = 1e-12 if (name == "module_output" and info["route"] not in ("inject", "cast")) else 0.0
+
+    def same(x, y):
+        import math
+        if x == y or (math.isnan(x) and math.isnan(y)):
+            return True
+        if math.isnan(x) or math.isnan(y) or math.isinf(x) or math.isinf(y):
+            return False
+        return abs(x - y) <= max(ulps * ulp * max(abs(x), abs(y)), rel * (1 + abs(x)))
+    for i, (st, v) in zip(info["steps"], ats):
+        if st != "ok":
+            ctx.fail(f"feature {name}.get({i}) raised after the market was replaced ({info['route']})", case | {"i": i}, key=key + ":error", detail=v)
+            continue
+        if tuple(v.shape) != (N, 1, width) or v.dtype != v_all.dtype:
+            ctx.fail(f"feature {name}: after the market was replaced ({info['route']}) get(i) has shape {tuple(v.shape)} / {v.dtype}, "
+                     f"column i of get(None) has {(N, 1, width)} / {v_all.dtype}", case | {"i": i}, key=key)
+            continue
+        if name == "empty":
+            continue
+        at = [x for row in v.to(torch.float64).tolist() for x in row[0]]
+        col = [x for row in allv for x in row[i]]
+        if len(at) != len(col) or not all(same(x, y) for x, y in zip(at, col)):
+            ctx.fail(f"feature {name}: after the market was replaced ({info['route']}) get(i) on the same feature object differs from "
+                     "column i of get(None)", case | {"i": i}, key=key, detail={"at": at, "col": col})
+
+
 def check(ctx):
     torch, pfhedge = import_impl()
     from pfhedge.nn import Hedger
@@ -72,10 +160,12 @@ def check(ctx):
                 if mut:
                     ctx.mutated(f"{name}.get({i})", mut, case)
                 ats.append((st, v))
+            second = second_round(torch, g, f, d, u, mk, name)
         ctx.stats[f"feature={name}"] += 1
         ctx.stats[f"primary={mk['primary']}"] += 1
         ctx.case(case, nontrivial=T >= 2, tag="feature")
         ctx.traces += 1
+        judge_second_round(ctx, torch, second, case, name, log)
         if st_all != "ok":
             ctx.fail(f"feature {name}.get(None) raised", case, key=f"feature:{name}:get(None):error", detail=v_all)
             continue
@@ -267,7 +357,8 @@ def check(ctx):
     return ctx.finish(
         rule="features: all registered features + Barrier(up/down, threshold tied to a path value) + Ones + log variants + ModuleOutput over "
              "Brownian/Heston/Merton/LocalVol underliers x 4 option types on dyadic injected buffers (ties, zero/negative variance), steps {0,T-1,random}; "
-             "hedges: linear/MLP dyadic models through both branches with a recording wrapper; non-trivial = T>=2; distinct = sha1 of canonical case")
+             "second round on the same feature/derivative objects after the market was replaced (buffers re-registered, underlier / sibling derivative / "
+             "derivative simulated, cast to float32); hedges: linear/MLP dyadic models through both branches with a recording wrapper; non-trivial = T>=2; distinct = sha1 of canonical case")
 
 
 def pad_model(ms, H):
